@@ -128,12 +128,37 @@ HashRespectsBad(h, rel, N) == {<<i, j>> \in N \X N : i < j /\ rel[i][j] /\ h[i] 
 (* []byte in field position is compared by nil-ness && bytes.Equal.        *)
 IsBytes(T) == T.k = "slice" /\ T.e.k = "basic" /\ T.e.b = "uint8"
 
+StripMeth(T) == [f \in DOMAIN T \ {"meth"} |-> T[f]]
+MethArg(T) == SubSeq(T.meth, 2, 2)      \* "v" | "p" | "i"
+MethRecv(T) == SubSeq(T.meth, 1, 1)     \* "v" | "p"
+
+\* canEqual() of plugin/equal: basics, arrays and structs of them are compared with Go's ==
+RECURSIVE CanEq(_)
+CanEq(T) ==
+  CASE T.k = "basic"  -> TRUE
+    [] T.k = "named"  -> TRUE
+    [] T.k = "array"  -> CanEq(T.e)
+    [] T.k = "struct" -> \A i \in DOMAIN T.fields : CanEq(T.fields[i].t)
+    [] OTHER -> FALSE
+\* Go's == on such a value: leaf by leaf, user methods play no role
+RECURSIVE PlainEq(_, _, _)
+PlainEq(T, x, y) ==
+  CASE T.k = "basic"  -> Rank(T.b, x.tok) = Rank(T.b, y.tok)
+    [] T.k = "named"  -> PlainEq(T.u, x, y)
+    [] T.k = "array"  -> \A i \in 1..T.len : PlainEq(T.e, x.es[i], y.es[i])
+    [] T.k = "struct" -> \A i \in DOMAIN T.fields : PlainEq(T.fields[i].t, x.fs[i], y.fs[i])
+
+\* this.P.Equal(that.P) / this.P.Compare(that.P) is emitted WITHOUT a nil check when the
+\* method takes a pointer or interface{}: a value receiver then cannot be nil-safe
+NilCallUnsafe(T) == T.k = "ptr" /\ HasMeth(T.e) /\ MethArg(T.e) \in {"p", "i"} /\ MethRecv(T.e) = "v"
+
 RECURSIVE EqImpl(_, _, _, _, _)
 EqImpl(env, T, x, y, pos) ==
   CASE T.k = "basic"  -> Rank(T.b, x.tok) = Rank(T.b, y.tok)               \* ==
     [] T.k = "named"  -> EqImpl(env, T.u, x, y, pos)
     [] T.k = "self"   -> EqImpl(env, env[T.name], x, y, pos)
-    [] T.k = "ptr"    -> IF x.nil \/ y.nil THEN x.nil = y.nil
+    [] T.k = "ptr"    -> IF pos = "field" /\ NilCallUnsafe(T) /\ x.nil THEN FALSE      \* panics, or (dead load elided) "b == nil -> false"
+                         ELSE IF x.nil \/ y.nil THEN x.nil = y.nil
                          ELSE EqImpl(env, T.e, x.v, y.v,
                                      IF pos = "field" /\ T.e.k \notin {"named", "struct", "self"} THEN "field" ELSE "top")
     [] T.k = "slice"  ->
@@ -145,7 +170,8 @@ EqImpl(env, T, x, y, pos) ==
               /\ \/ x.nil
                  \/ /\ Len(x.es) = Len(y.es)
                     /\ \A i \in DOMAIN x.es : EqImpl(env, T.e, x.es[i], y.es[i], "field")
-    [] T.k = "array"  -> \A i \in 1..T.len : EqImpl(env, T.e, x.es[i], y.es[i], "field")
+    [] T.k = "array"  -> IF pos = "field" /\ CanEq(T) THEN PlainEq(T, x, y)              \* this.A == that.A
+                         ELSE \A i \in 1..T.len : EqImpl(env, T.e, x.es[i], y.es[i], "field")
     [] T.k = "map"    -> /\ x.nil = y.nil
                          /\ \/ x.nil
                             \/ /\ Len(x.kv) = Len(y.kv)
@@ -154,6 +180,7 @@ EqImpl(env, T, x, y, pos) ==
                                      /\ EqImpl(env, T.e, x.kv[i].v, y.kv[j].v, "field")
     [] T.k = "struct" -> LET e2 == Bind(env, T) IN
                          IF HasMeth(T) THEN EqImpl(e2, T.fields[1].t, x.fs[1], y.fs[1], "field")   \* this.A.Equal(that.A)
+                         ELSE IF pos = "field" /\ CanEq(T) THEN PlainEq(T, x, y)                    \* this.A == that.A: nested methods ignored
                          ELSE \A i \in DOMAIN T.fields : EqImpl(e2, T.fields[i].t, x.fs[i], y.fs[i], "field")
 
 Sgn(a, b) == IF a < b THEN -1 ELSE IF a > b THEN 1 ELSE 0
@@ -177,8 +204,11 @@ CmpImpl(env, T, x, y, pos) ==
   CASE T.k = "basic"  -> Sgn(Rank(T.b, x.tok), Rank(T.b, y.tok))
     [] T.k = "named"  -> CmpImpl(env, T.u, x, y, pos)
     [] T.k = "self"   -> CmpImpl(env, env[T.name], x, y, pos)
-    [] T.k = "ptr"    -> IF x.nil THEN (IF y.nil THEN 0 ELSE -1)
+    [] T.k = "ptr"    -> IF pos = "field" /\ NilCallUnsafe(T) /\ x.nil THEN 1           \* panics, or (dead load elided) "b == nil -> 1"
+                         ELSE IF x.nil THEN (IF y.nil THEN 0 ELSE -1)
                          ELSE IF y.nil THEN 1
+                         \* a value-argument Compare method is not used behind a pointer: structural helper
+                         ELSE IF HasMeth(T.e) /\ MethArg(T.e) = "v" THEN CmpImpl(env, StripMeth(T.e), x.v, y.v, "top")
                          ELSE CmpImpl(env, T.e, x.v, y.v, "top")
     [] T.k = "slice"  ->
          IF x.nil THEN (IF y.nil THEN 0 ELSE -1)                                 \* (no bytes.Compare shortcut since a8c073e)
